@@ -77,7 +77,14 @@ def build_case(draw, table, tl, k1, k2):
     having = None
     if gb is not None and pick([False, False, True]):
         having = ['gt', ['fn', 'count', [['star']]], ['const', 'int', 0]]
-    sel = bql.select([tuple(t) for t in tl], ('table', 't'), where, gb, having, pivot_by=[ref1, ref2])
+    if pick([False, False, True]):
+        # a sub-select compiled after the targets, naming columns like the pivot columns
+        inner = bql.select([(['col', pick(['k1', 'k2'])], pick([None, n1, n2]))], ('table', 't'))
+        cond = ['in', ['col', inner['targets'][0][0][1]], ['subq', inner]]
+        where = cond if where is None else ['and', [where, cond]]
+    okey = ref1 if isinstance(ref1, int) else ['col', ref1]
+    order = pick([None, None, [(okey, 'DESC')], [(p1, 'ASC')], [(p2, 'DESC'), (p1, 'DESC')], [(['fn', 'count', [['star']]], 'DESC')]])
+    sel = bql.select([tuple(t) for t in tl], ('table', 't'), where, gb, having, order_by=order, pivot_by=[ref1, ref2])
     alt = dict(sel, pivot_by=[p1 if ref1 != p1 else n1, p2 if ref2 != p2 else n2])
     return {'tables': [table], 'sel': harness.force_aliases(sel), 'alt': harness.force_aliases(alt), 'pos': [p1, p2]}
 
